@@ -341,11 +341,21 @@ def to_record(c, mode, build, r):
     return rec
 
 
-def run_binary(chk, mode, build, binary, cases, tag, stack_every=0):
+def load_scale():
+    """>= 1: how much slower than on an idle machine a wall-clock limit has to be taken (load average / CPUs)"""
+    try:
+        return max(1.0, os.getloadavg()[0] / (os.cpu_count() or 1))
+    except OSError:
+        return 1.0
+
+
+def run_binary(chk, mode, build, binary, cases, tag, stack_every=0, timeout_ms=None, maxfail=10):
     cf = os.path.join(chk.work, "cases_%s_%s_%s.txt" % (mode, build, tag))
     of = os.path.join(chk.work, "launch_%s_%s_%s.ndjson" % (mode, build, tag))
     write_cases(cf, binary, cases, stack_every)
-    p = subprocess.run([LAUNCH, cf, of, "5000", "10"], stdout=subprocess.PIPE, stderr=subprocess.PIPE, timeout=3000)
+    if timeout_ms is None:
+        timeout_ms = int(5000 * load_scale())
+    p = subprocess.run([LAUNCH, cf, of, str(timeout_ms), str(maxfail)], stdout=subprocess.PIPE, stderr=subprocess.PIPE, timeout=6000)
     if p.returncode != 0:
         raise core.ToolError("launch failed rc=%d: %s" % (p.returncode, p.stderr.decode()[-500:]))
     res = {}
@@ -361,8 +371,46 @@ def run_binary(chk, mode, build, binary, cases, tag, stack_every=0):
         if res[i].get("status") == "execfail":
             raise core.ToolError("execve of %s failed: errno %s" % (binary, res[i].get("code")))
         recs.append(to_record(c, mode, build, res[i]))
+        recs[-1]["case_index"] = i
         raws.append(res[i])
     return recs, raws
+
+
+def reconfirm_timeouts(chk, mode, build, binary, cases, recs, raws, notes):
+    """A probe killed by the launcher's WALL-CLOCK limit (status timeout) - or not run because the launcher gave up after
+    a series of such failures - only counts after the same single launches, run alone with a limit >= 5x the original
+    (scaled by the load), time out in 2 of 2 re-runs.  Otherwise the re-run's record is judged and the trip is noted."""
+    have = {r["case_index"] for r in recs}
+    trips = [r["case_index"] for r in recs if r["status"] == "timeout"]
+    skipped = [i for i in range(len(cases)) if i not in have]
+    if not trips:
+        return recs, raws
+    limit = int(5 * 5000 * load_scale())
+    todo = trips + skipped
+    again = {}
+    for attempt in (1, 2):
+        if not todo:
+            break
+        rs, rw = run_binary(chk, mode, build, binary, [cases[i] for i in todo], "re%d" % attempt, timeout_ms=limit, maxfail=0)
+        still = []
+        for r, w in zip(rs, rw):
+            i = todo[r["case_index"]]
+            r["case_index"] = i
+            if r["status"] == "timeout":
+                still.append(i)
+                again.setdefault(i, (r, w))
+            else:
+                again[i] = (r, w)
+        todo = still
+    confirmed = set(todo)            # timed out in the first run and in 2 of 2 isolated re-runs
+    out = {r["case_index"]: (r, w) for r, w in zip(recs, raws)}
+    for i, (r, w) in again.items():
+        if i not in confirmed:
+            out[i] = (r, w)
+    notes.append({"binary": "%s/%s" % (mode, build), "timeouts_in_the_batch": len(trips), "not_run_by_the_launcher": len(skipped),
+                  "reproduced_2_of_2": len(confirmed), "isolated_limit_ms": limit})
+    order = sorted(out)
+    return [out[i][0] for i in order], [out[i][1] for i in order]
 
 
 def ids_usable(chk, binary):
@@ -1155,16 +1203,25 @@ def run(tier):
     step = 8 if quick else 4
     reduced = [c for i, c in enumerate(cases) if i < len(lead_cases) + len(EXTRA_ENVS) or i % step == 0 or "scripts" in c or len(c["argv"]) > 10 or c.get("always")]
 
+    trip_notes = []
+
     def work(item):
         (mode, build), binary = item
-        return (mode, build), run_binary(chk, mode, build, binary, reduced if mode in variant_modes else cases, tier,
-                                         stack_every=10 if quick else 25)
+        mine = reduced if mode in variant_modes else cases
+        recs, raws = run_binary(chk, mode, build, binary, mine, tier, stack_every=10 if quick else 25)
+        return (mode, build), (recs, raws, mine)
 
     core.log("C07: %d cases per binary, %d binaries (t=%.0fs)" % (len(cases), len(bins), time.time() - chk.t0))
     results = {}
     with concurrent.futures.ThreadPoolExecutor(max_workers=8) as ex:
         for key, val in ex.map(work, sorted(bins.items())):
             results[key] = val
+    # wall-clock trips are re-confirmed one binary at a time (alone), see reconfirm_timeouts
+    for key in sorted(results):
+        recs, raws, mine = results[key]
+        results[key] = reconfirm_timeouts(chk, key[0], key[1], bins[key], mine, recs, raws, trip_notes)
+    chk.extra["wall_clock_trips_not_reproduced"] = [n for n in trip_notes if n["reproduced_2_of_2"] < n["timeouts_in_the_batch"]]
+    chk.extra["wall_clock_trips"] = trip_notes
 
     core.log("C07: execs done (t=%.0fs)" % (time.time() - chk.t0))
     nontrivial = set()
